@@ -77,7 +77,8 @@ pub fn gen_wf_graph(rng: &mut Rng, maxn: usize) -> Vec<Atom> {
     let mut edges: Vec<(usize, usize, BondKind)> = vec![];
     let has = |e: &Vec<(usize, usize, BondKind)>, a: usize, b: usize| e.iter().any(|(x, y, _)| (*x == a && *y == b) || (*x == b && *y == a));
     for i in 1..n { if rng.chance(17, 20) { let j = rng.below(i); edges.push((j, i, gen_bk(rng))) } }
-    let extra = if n >= 3 { rng.below(1 + n / 2) } else { 0 };
+    // one graph in four is ring-dense (cages, ladders: several closures open at once with interleaved lifetimes)
+    let extra = if n >= 3 { if rng.chance(1, 4) { n / 2 + rng.below(n + 1) } else { rng.below(1 + n / 2) } } else { 0 };
     for _ in 0..extra { let a = rng.below(n); let b = rng.below(n); if a != b && !has(&edges, a, b) { edges.push((a, b, gen_bk(rng))) } }
     let mut perm: Vec<usize> = (0..n).collect(); rng.shuffle(&mut perm);
     let mut g: Vec<Atom> = (0..n).map(|_| Atom { kind: gen_kind(rng), bonds: vec![] }).collect();
